@@ -84,6 +84,7 @@ struct ExecOpts
 	bool strict = true ;			// fault-free discipline: all model clauses on
 	bool io_trace = true ;
 	bool record_io = false ;
+	int mem_fill = -1 ;				// initial-memory differential: byte that fresh library heap blocks and the unused stack hold (-1 = as is)
 	bool passthrough = false ;		// validation of SimOS: system calls made by the library go to the real kernel (files mirrored under pt_root)
 	std::string pt_root ;
 	const std::map<std::string, std::vector<uint8_t>> *preload = nullptr ;		// stores present before the first op
